@@ -829,7 +829,9 @@ fn declare_units_eq(slot: usize, i: u32, bal: u128) {
 /// votes total supply == token total supply.
 /// DELEG = false: nobody delegates (no Delegatee entry exists). DELEG = true: every account delegates to none / D0 / D1
 /// and votes(Dk) >= sum of the balances delegated to it.
-fn fv_body<const DELEG: bool>(op: u8) {
+fn fv_body<const DELEG: bool>(op: u8, ex: bool) {
+    use stellar_tokens::fungible::FungibleToken;
+    use votes_example::ExampleContract as Ex;
     setup_world();
     let e = Env::default();
     let pre = fg::declare_balances();
@@ -887,6 +889,11 @@ fn fv_body<const DELEG: bool>(op: u8) {
         kani::assume(t.votes == pre.supply as u128);
         ts = Some(t);
     }
+    if ex && op == OP_MINT {
+        // the example's mint is owner-only
+        model::declare_val(nx, 2, &stellar_access::ownable::OwnableStorageKey::Owner, kani::any(), &addr_below(4), 0);
+        nx += 1;
+    }
     let amount: i128 = kani::any();
     let mux: Option<u64> = kani::any();
     let al_worth = match &al {
@@ -894,7 +901,16 @@ fn fv_body<const DELEG: bool>(op: u8) {
         None => 0,
     };
 
-    if op == OP_TRANSFER {
+    if ex {
+        // through the exported entry points of examples/fungible-votes (ContractType = FungibleVotes)
+        if op == OP_TRANSFER {
+            <Ex as FungibleToken>::transfer(&e, from.clone(), MuxedAddress { addr: to.clone(), mux }, amount);
+        } else if op == OP_TRANSFER_FROM {
+            <Ex as FungibleToken>::transfer_from(&e, spender.clone(), from.clone(), to.clone(), amount);
+        } else {
+            Ex::mint(&e, &to, amount);
+        }
+    } else if op == OP_TRANSFER {
         FungibleVotes::transfer(&e, &from, &MuxedAddress { addr: to.clone(), mux }, amount);
     } else if op == OP_TRANSFER_FROM {
         FungibleVotes::transfer_from(&e, &spender, &from, &to, amount);
@@ -1000,13 +1016,22 @@ fn pick3(d: &[Option<u32>; 3], a: &Address) -> Option<u32> {
 }
 macro_rules! fv_harness {
     ($name:ident, $deleg:expr, $op:expr, $unwind:literal) => {
+        fv_harness!($name, $deleg, $op, $unwind, false);
+    };
+    ($name:ident, $deleg:expr, $op:expr, $unwind:literal, $ex:expr) => {
         #[kani::proof]
         #[kani::unwind($unwind)]
         pub fn $name() {
-            fv_body::<$deleg>($op)
+            fv_body::<$deleg>($op, $ex)
         }
     };
 }
+/// examples/fungible-votes: the shipped votes-enabled token (FungibleToken::ContractType = FungibleVotes, owner-only mint)
+#[path = "/repo/examples/fungible-votes/src/contract.rs"]
+pub mod votes_example;
+fv_harness!(ex_transfer, false, OP_TRANSFER, 18, true);
+fv_harness!(ex_transfer_from, false, OP_TRANSFER_FROM, 18, true);
+fv_harness!(ex_mint, false, OP_MINT, 18, true);
 fv_harness!(fv_transfer, false, OP_TRANSFER, 18);
 fv_harness!(fv_transfer_from, false, OP_TRANSFER_FROM, 18);
 fv_harness!(fv_mint, false, OP_MINT, 18);
